@@ -201,6 +201,11 @@ pub const BUILTINS: &[(&str, usize, bool)] = &[
     ("list-ref", 2, false),
     ("floor-quotient", 2, false),
     ("floor-remainder", 2, false),
+    ("abs", 1, false),
+    ("floor", 1, false),
+    ("ceiling", 1, false),
+    ("max", 1, true),
+    ("min", 1, true),
 ];
 
 fn builtin_arity(name: &str) -> Option<(usize, bool)> {
@@ -725,6 +730,13 @@ impl Machine {
                     _ => w[0] >= w[1],
                 });
                 Ok(RV::Bool(ok))
+            }
+            "abs" => small(Self::num(&args[0])?.abs()),
+            "floor" | "ceiling" => small(Self::num(&args[0])?),
+            "max" | "min" => {
+                let nums: Vec<i64> = args.iter().map(Self::num).collect::<Result<_, _>>()?;
+                let v = if name == "max" { nums.iter().max() } else { nums.iter().min() };
+                small(*v.unwrap())
             }
             "vector" => Ok(self.new_vector(args, true)),
             "make-vector" => {
